@@ -97,8 +97,7 @@ def step (st : DState) (fs : List String) (impl : String) : DState × String × 
     | none => (st, "bad-op", "-")
     | some op =>
       let (s', o) := GrpcModel.RecvBuffer.step st.s op
-      let mo := if o == .panic then "PANIC runtime error: invalid memory address or nil pointer dereference"
-        else showOut o ++ " | " ++ showState s'
+      let mo := showOut o ++ " | " ++ showState s'
       -- monitor: the spec automaton on the IMPLEMENTATION's answer
       let (sp', verdict) := match parseOut (implAnswer impl) with
         | none => (st.sp, "VIOL unparsable or failed answer: " ++ implAnswer impl)
